@@ -383,7 +383,8 @@ func c05Sequences(depth int) *core.Scenario {
 
 func init() {
 	register(&Property{
-		ID: "C05",
+		ID:     "C05",
+		Custom: c05CLI,
 		Scenarios: func(tier string) []*core.Scenario {
 			if tier == "thorough" {
 				return []*core.Scenario{c05Lists(3, []int{4, 8, 16, 32, 64}), c05Resb(true), c05Alignb(), c05NonEmitting(), c05Sequences(3)}
